@@ -136,6 +136,12 @@ def structure_objects():
     # properties that are present but "falsy": empty text, integer zero
     add("s-event-falsy", ev("s9", ["SUMMARY:", "LOCATION:", "PRIORITY:0", "SEQUENCE:0"]))
     add("s-todo-zero", ["BEGIN:VTODO", "UID:s10", "DTSTAMP:20200101T000000Z", "SUMMARY:zero", "PERCENT-COMPLETE:0", "PRIORITY:0", "END:VTODO"])
+    # several components of one type in one resource (recurrence master + override, in both file orders): a comp-filter holds
+    # if ANY of them satisfies it; only the naive path is judged on these (index values are per resource: C10 known finding)
+    master = ["BEGIN:VEVENT", "UID:s11", "DTSTAMP:20200101T000000Z", "DTSTART:20200310T100000Z", "RRULE:FREQ=WEEKLY;COUNT=2", "SUMMARY:Alpha beta", "LOCATION:Room 1", "END:VEVENT"]
+    override = ["BEGIN:VEVENT", "UID:s11", "DTSTAMP:20200101T000000Z", "RECURRENCE-ID:20200317T100000Z", "DTSTART:20200318T100000Z", "SUMMARY:gamma", "END:VEVENT"]
+    add("s-multi-override-last", master + override)
+    add("s-multi-override-first", [x.replace("s11", "s12") for x in override + master])
     add("s-journal", ["BEGIN:VJOURNAL", "UID:s8", "DTSTAMP:20200101T000000Z", "DTSTART:20200310T100000Z", "SUMMARY:Alpha beta", "END:VJOURNAL"])
     return out
 
@@ -413,10 +419,11 @@ def run(tier, workers=None):
     icfg = Config(front="wsgi", backend="tree", prefix="/", names=names, features=set(), threshold=0)
     # param-filters are left out of the index pass: their index keys make the index path fail (C10 known finding)
     ifilters = [x for x in sfilters if not x[1].startswith("param-")]
+    sobjs_index = {n: b for n, b in sobjs.items() if not n.startswith("s-multi")}
     for i in range(min(nw, 8)):
         chunk = ifilters[i::min(nw, 8)]
         if chunk:
-            jobs_all.append((icfg, "structure", sobjs, chunk, None))
+            jobs_all.append((icfg, "structure", sobjs_index, chunk, None))
     itime = {n: b for n, (b, c) in tobjs.items() if c != "VFREEBUSY"}
     tz0 = UTC
     ibounds = sorted({x for n, (b, c) in tobjs.items() if c != "VFREEBUSY" for x in bounds_of(b, c, tz0)})
@@ -459,7 +466,11 @@ def run(tier, workers=None):
         "requests_executed": tot["requests"],
         "exhaustive": True,
     }
+    from . import sizes
+
+    cov.update(sizes.run_sweep(rep, "C11", ['calendar-query']))
     return rep.finish("exploration", cov, assumptions=[
+        "size sweep: the collection is grown member by member to 140 and the same view is checked at every size up to 8 and around 16, 32, 64, 100 and 128",
         "RFC 4791 9.9 tables as reproduced in xv/core/rfc4791.py (written from the RFC, no icalendar import); text-match is a substring match under the collation (9.7.5)",
         "not generated: boundary equality for property-level time-range, properties occurring more than once in a component, DUE+DURATION, DURATION without DTSTART, VEVENT without DTSTART, recurrence expansion, VALARM time-range",
         "floating and DATE values are taken in the CALDAV:timezone of the request, else the server zone (TZ=UTC in the harness)",
